@@ -264,7 +264,7 @@ Qed.
 
 (* ------------------------------------------------------------------ effects of accepted modifications *)
 Theorem setattr_model_effect : forall cfg st o ob cls name v,
-  get st o = Some ob -> okind ob = KModel cls -> ofrozen ob = false -> frozen_pm st v = false -> has_us name = false ->
+  get st o = Some ob -> okind ob = KModel cls -> ofrozen ob = false -> frozen_pm cfg st v = false -> has_us name = false ->
   let st' := fst (step cfg (OSet o name v) st) in
   comp_at st' o = Some (KModel cls, set_attr name v (oattrs ob), onitems ob) /\
   (forall t, t <> o -> comp_at st' t = comp_at st t) /\
@@ -280,7 +280,7 @@ Qed.
 
 (* a frozen model refuses to become the component of a Model (the `label` assignment hits its guard) *)
 Theorem setattr_model_frozen_value : forall cfg st o ob cls name v,
-  get st o = Some ob -> okind ob = KModel cls -> ofrozen ob = false -> frozen_pm st v = true ->
+  get st o = Some ob -> okind ob = KModel cls -> ofrozen ob = false -> frozen_pm cfg st v = true ->
   step cfg (OSet o name v) st = (st, Exn EAssertion).
 Proof.
   intros cfg st o ob cls name v G K F Fv. cbn [step]. apply lift_exn. unfold op_set, bind, gets.
@@ -562,14 +562,21 @@ Proof.
   - apply ExnSame_gets. intros [|]; [apply ExnSame_raise|apply ExnSame_ok, AlwaysOk_modify].
 Qed.
 
-Lemma ExnSame_op_new : forall k a ni, ExnSame (op_new k a ni).
+Lemma ExnSame_op_new : forall cfg k a ni, ExnSame (op_new cfg k a ni).
 Proof.
-  intros k a ni st e E. unfold op_new in *. destruct k; simpl in *; try discriminate.
+  intros cfg k a ni st e E. unfold op_new in *. destruct k; simpl in *; try discriminate.
   destruct (existsb _ a); simpl in *; [reflexivity|discriminate].
 Qed.
 
-Lemma ExnSame_op_copy : forall o, ExnSame (op_copy o).
-Proof. intros o st e E. unfold op_copy in E. destruct (copy_val _ _ _). simpl in E. discriminate. Qed.
+Lemma ExnSame_op_copy : forall cfg o, ExnSame (op_copy cfg o).
+Proof. intros cfg o st e E. unfold op_copy in E. destruct (copy_val _ _ _ _ _). simpl in E. discriminate. Qed.
+
+Lemma ExnSame_op_restore : forall cfg o m, ExnSame (op_restore cfg o m).
+Proof.
+  intros cfg o m st e E. unfold op_restore in *. destruct m.
+  - destruct (get st o); simpl in *; [discriminate|reflexivity].
+  - destruct (copy_val _ _ _ _ _) as [cs v]. destruct (gtuple cfg && negb (trestore cfg) && cbad cs); simpl in *; [reflexivity|discriminate].
+Qed.
 
 Lemma bump_uncounted_exn : forall cfg b c st, ExnSame c -> (exists e, snd (c st) = Exn e) -> fst (bump cfg b c st) = st.
 Proof.
@@ -600,6 +607,7 @@ Proof.
     + left. unfold del_guarded. rewrite Hd, Ht. destruct (okind ob); reflexivity.
     + right. exists EAttribute. unfold op_del, bind, gets. simpl. now rewrite G.
   - apply Hcnt; auto; [apply Frm_op_copy|apply ExnSame_op_copy].
+  - apply Hcnt; auto; [apply Frm_op_restore|apply ExnSame_op_restore].
 Qed.
 
 Lemma run_ok_repaired : forall cfg ops st, all_repaired cfg -> Inv st -> inflight st = [] ->
@@ -615,4 +623,87 @@ Proof.
   destruct (run_ok_repaired cfg pre (init cfg) HA (Inv_init cfg) eq_refl) as (I & Hi).
   destruct (query_coherent cfg (fst (run cfg pre (init cfg))) o q I Hi) as (E & _).
   destruct (run_query cfg o q (fst (run cfg pre (init cfg)))) as [st1 a]. simpl in *. now rewrite E.
+Qed.
+
+(* ------------------------------------------------------------------ restoring stored state (916e580) *)
+(* rebuilding from the database form never raises; a shallow copy raises only for a missing object *)
+Theorem restore_never_raises : forall cfg st o,
+  trestore cfg = true -> snd (step cfg (ORestore o RDatabase) st) = Ok AUnit.
+Proof.
+  intros cfg st o Ht. cbn [step]. unfold unit_ans, bind, bump, op_restore.
+  destruct (copy_val cfg true FUEL (VRef o) (copy_start st)) as [cs v]. rewrite Ht.
+  rewrite andb_false_r. reflexivity.
+Qed.
+
+Theorem restore_shallow_ok : forall cfg st o ob, get st o = Some ob ->
+  snd (step cfg (ORestore o RShallow) st) = Ok AUnit.
+Proof. intros cfg st o ob G. cbn [step]. unfold unit_ans, bind, bump, op_restore. rewrite G. reflexivity. Qed.
+
+(* _set_tuple_priors_frozen gives every TuplePrior among the attributes the flag b *)
+Lemma retuple_one_kind : forall b base h kv x, option_map okind (nth_error (retuple_one b base h kv) x) = option_map okind (nth_error h x).
+Proof.
+  intros b base h [k v] x. unfold retuple_one. simpl. destruct v as [p|c|u]; auto.
+  destruct (Nat.leb base u); auto. destruct (nth_error h u) as [ub|] eqn:G; auto. destruct (okind ub) eqn:K; auto.
+  destruct (Nat.eq_dec u x) as [->|Hne].
+  - rewrite nth_error_update_eq by (apply nth_error_Some; congruence). rewrite G. simpl. now rewrite K.
+  - now rewrite nth_error_update_neq.
+Qed.
+
+Definition flagged (b : bool) (h : list obj) (x : nat) : Prop :=
+  exists xb, nth_error h x = Some xb /\ okind xb = KTuple /\ ofrozen xb = b.
+
+Lemma retuple_one_keeps : forall b base h kv x, flagged b h x -> flagged b (retuple_one b base h kv) x.
+Proof.
+  intros b base h [k v] x (xb & G & K & F). unfold retuple_one. simpl. destruct v as [p|c|u]; try (exists xb; auto; fail).
+  destruct (Nat.leb base u); [|exists xb; auto]. destruct (nth_error h u) as [ub|] eqn:Gu; [|exists xb; auto].
+  destruct (okind ub) eqn:Ku; try (exists xb; auto; fail).
+  destruct (Nat.eq_dec u x) as [->|Hne].
+  - exists (with_cache (with_frozen ub b) []). rewrite nth_error_update_eq by (apply nth_error_Some; congruence). auto.
+  - exists xb. rewrite nth_error_update_neq by auto. auto.
+Qed.
+
+Lemma retuple_sets : forall b base attrs h k u ub, In (k, VRef u) attrs -> base <= u ->
+  nth_error h u = Some ub -> okind ub = KTuple -> flagged b (retuple b base h attrs) u.
+Proof.
+  intros b base. unfold retuple. induction attrs as [|kv attrs IH]; intros h k u ub Hin Hb G K; [contradiction|]. simpl.
+  assert (Keep : forall h0, flagged b h0 u -> flagged b (fold_left (retuple_one b base) attrs h0) u).
+  { clear. induction attrs as [|kv attrs IH]; intros h0 F; simpl; auto. apply IH. now apply retuple_one_keeps. }
+  destruct Hin as [->|Hin].
+  - apply Keep. unfold retuple_one. simpl. apply Nat.leb_le in Hb. rewrite Hb, G, K.
+    exists (with_cache (with_frozen ub b) []). rewrite nth_error_update_eq by (apply nth_error_Some; congruence). auto.
+  - pose proof (retuple_one_kind b base h kv u) as Hk. rewrite G in Hk. simpl in Hk.
+    destruct (nth_error (retuple_one b base h kv) u) as [ub1|] eqn:G1; [|discriminate]. simpl in Hk. injection Hk as Hk.
+    apply (IH _ k u ub1); auto. congruence.
+Qed.
+
+Lemma retuple_one_keeps_pm : forall b base h kv x xb, nth_error h x = Some xb -> okind xb <> KTuple ->
+  nth_error (retuple_one b base h kv) x = Some xb.
+Proof.
+  intros b base h [k v] x xb G K. unfold retuple_one. simpl. destruct v as [p|c|u]; auto.
+  destruct (Nat.leb base u); auto. destruct (nth_error h u) as [ub|] eqn:Gu; auto. destruct (okind ub) eqn:Ku; auto.
+  destruct (Nat.eq_dec u x) as [->|Hne]; [congruence|]. now rewrite nth_error_update_neq.
+Qed.
+Lemma retuple_keeps_pm : forall b base attrs h x xb, nth_error h x = Some xb -> okind xb <> KTuple ->
+  nth_error (retuple b base h attrs) x = Some xb.
+Proof.
+  intros b base. unfold retuple. induction attrs as [|kv attrs IH]; intros h x xb G K; simpl; auto.
+  apply IH; auto. now apply retuple_one_keeps_pm.
+Qed.
+
+(* copy.copy of a model: the shared TuplePriors carry the flag of the (equally flagged) copy *)
+Theorem restore_shallow_tuple_flags : forall cfg st o ob k u ub,
+  gtuple cfg = true -> trestore cfg = true -> epochs cfg = false ->
+  get st o = Some ob -> is_pm_kind (okind ob) = true -> In (k, VRef u) (oattrs ob) -> get st u = Some ub -> okind ub = KTuple ->
+  let st' := fst (step cfg (ORestore o RShallow) st) in
+  get st' (List.length (heap st)) = Some (with_cache ob []) /\ flagged (ofrozen ob) (heap st') u.
+Proof.
+  intros cfg st o ob k u ub Hg Ht He G Kp Hin Gu Ku. cbn [step]. rewrite fst_unit_ans. unfold bump, op_restore.
+  rewrite G, Hg, Ht, Kp, He. simpl.
+  assert (Gu1 : nth_error (heap st ++ [with_cache ob []]) u = Some ub).
+  { unfold get in Gu. rewrite nth_error_app1; auto. apply nth_error_Some. congruence. }
+  assert (Gn : nth_error (heap st ++ [with_cache ob []]) (List.length (heap st)) = Some (with_cache ob [])).
+  { rewrite nth_error_app2 by lia. rewrite Nat.sub_diag. reflexivity. }
+  split.
+  - unfold get. simpl. apply retuple_keeps_pm; auto. simpl. destruct (okind ob); simpl in Kp; congruence.
+  - apply (retuple_sets _ 0 (oattrs ob) _ k u ub); auto. lia.
 Qed.
